@@ -111,6 +111,9 @@ def cli_case(ctx, k):
     mode = rng.choice(["back", "back", "prefix", "suffix"])
     d = os.path.join(ctx.scratch, f"cli{k}")
     os.makedirs(d, exist_ok=True)
+    overlap = rng.choice([1, 3, 3, 5])
+    rate = float(rng.choice(["0", "0.1", "0.2"]))
+    musts = {}
     try:
         recs = []
         for i in range(40):
@@ -124,6 +127,19 @@ def cli_case(ctx, k):
                 s = left + ad + right if r < 0.5 else left + ad + G.rnd(rng, 3) + ad + right if r < 0.7 else left + right
             if mode in ("prefix", "suffix") and rng.random() < 0.15:
                 s = ad     # nothing but the adapter
+            must_trim = None
+            if mode == "back" and rng.random() < 0.3:
+                if rng.random() < 0.6:
+                    # error-free partial occurrence at the 3' end, at least the minimum overlap long
+                    p = rng.randint(min(overlap, len(ad)), len(ad))
+                    s = left + ad[:p]
+                    must_trim = f"ends with the first {p} adapter bases (minimum overlap {overlap})"
+                elif int(rate * len(ad)) >= 1:
+                    # a full copy with one substitution: within the tolerance
+                    j = rng.randrange(len(ad))
+                    s = left + ad[:j] + rng.choice([c for c in "ACGT" if c != ad[j]]) + ad[j + 1:] + right
+                    must_trim = f"contains a full copy with one substitution (tolerance {rate} x {len(ad)})"
+            musts[f"r{i}"] = must_trim
             recs.append((f"r{i}", s, "I" * len(s)))
         inputs = climon.write_inputs(d, recs)
         spec = dict(back=ad, prefix="^" + ad, suffix=ad + "$")[mode]
@@ -137,7 +153,13 @@ def cli_case(ctx, k):
                 pair = [flag, ("^" + dec) if mode == "prefix" else (dec + "$")]
                 argv = (argv + pair) if rng.random() < 0.5 else (pair + argv)
             ctx.count("cli_runs_with_several_anchored_adapters")
-        argv += ["-e", rng.choice(["0", "0.1", "0.2"]), "-o", "out.fq"] + (["--no-indels"] if rng.random() < 0.3 else [])
+        argv += ["-e", repr(rate), "-O", str(overlap), "-o", "out.fq"] + (["--no-indels"] if rng.random() < 0.3 else [])
+        if rng.random() < 0.3:
+            # an adapter file with its own parameters given first: they hold for the file only
+            with open(os.path.join(d, "other.fasta"), "w") as f:
+                f.write(">o1\n" + G.rnd(rng, 12) + "\n>o2\n" + G.rnd(rng, 15) + "\n")
+            argv = [rng.choice(["-a", "-g"]), "file:other.fasta;" + rng.choice(["min_overlap=11", "e=0", "o=12;e=0;noindels"])] + argv
+            ctx.count("cli_runs_after_parameterised_file")
         run = climon.run(d, argv + inputs, trace=False)
         ctx.count("cli_runs")
         if run.rc != 0:
@@ -154,6 +176,8 @@ def cli_case(ctx, k):
             if o is None:
                 ctx.violation("cli-read-missing", f"read {name} not written; argv={argv}", case)
                 continue
+            if musts.get(name) and len(o) >= len(s):
+                ctx.violation("missed-occurrence", f"read {s!r} {musts[name]} of -a {ad} but nothing was removed; argv={argv}", case, klass="cli-admissible")
             if mode == "back" and ad in o:
                 ctx.violation("exact-copy-survives", f"exact copy of {ad} remains in the output {o!r} of read {s!r}; argv={argv}", case, klass="cli")
             if mode == "prefix" and s.startswith(ad) and o != s[len(ad):]:
